@@ -284,7 +284,7 @@ func keysOf(m map[string]bool) []string {
 }
 
 func TestC11(t *testing.T) {
-	col := stats.New("C11", "rule sets of 1-8 rules with generated conditions (true, false, and conditions that fail to evaluate: index/key out of range, missing field/fact, nil pointer, panicking/unknown method, modulo zero, kind mismatch), saliences with ties and int32 limits, action lists containing counted probe statements, and 0-2 rules removed from the library blueprint or from the instance; in half of the cases the same instance then answers 1-3 further calls with other facts; both settings of ReturnErrOnFailedRuleEvaluation. Oracle: the returned names as a multiset equal the non-removed rules whose condition is true when evaluated by a fresh single-rule engine on the same facts; saliences are non-increasing and equal the declared ones; the complete fact data is deep-equal before and after; no action probe fires; with the flag set an error is returned exactly when some non-removed rule's condition fails. Non-trivial: at least 2 matching rules of different salience and at least 1 non-matching rule. Distinct by rule text + state + removed set + flag.")
+	col := stats.New("C11", "rule sets of 1-8 rules with generated conditions (true, false, and conditions that fail to evaluate: index/key out of range, missing field/fact, nil pointer, panicking/unknown method, modulo zero, kind mismatch), saliences with ties and int32 limits, action lists containing counted probe statements, and 0-2 rules removed from the library blueprint or from the instance; in half of the cases the same instance then answers 1-3 further calls with other facts; both settings of ReturnErrOnFailedRuleEvaluation. Oracle: the returned names as a multiset equal the non-removed rules whose condition is true when evaluated by a fresh single-rule engine on the same facts; saliences are non-increasing and equal the declared ones; the complete fact data is deep-equal before and after; no action probe fires; with the flag set an error is returned exactly when some non-removed rule's condition fails. The value of every condition is the reference interpreter's wherever it gives one; the fresh engines decide the rest. Non-trivial: at least 2 matching rules of different salience and at least 1 non-matching rule. Distinct by rule text + state + removed set + flag.")
 	defer col.Flush()
 	rc := fullRuleCfg()
 	rc.Forget = false
